@@ -13,20 +13,40 @@ and it can be changed in place between two serialisations. The model value is th
 form sent to the driver is the expansion); a witness of this stream is the whole history {"history": {...}} (grammar in
 the comment above CONFUSABLE), replayed step by step through the library functions and as a BareScript program.
 
-Outside the property / the model (excluded from the generators): datetime / function / regex values (serialise as
-strings or null), non-string keys, NaN / infinities (`allow_nan=False` raises), lone surrogates (a Python str can hold
-them and json.dumps escapes them; a Lean `Char` cannot), containers that contain themselves (F18).
+Strings are also built from whole units (stream `boundaries`): text that looks like a number or a JSON token directly
+against every character some text-level tool treats as a boundary (all Unicode separators / controls / format characters,
+everything str.splitlines / str.isspace / \\s know), and object keys from groups that other collations order differently.
+
+Host-typed values (stream `hostvalues`): {"h": [kind, wire]} is a host object of a SUBCLASS type (int / float / str / list /
+dict subclass, IntEnum / str-mixin Enum member, OrderedDict, defaultdict) denoting the inner value; value_type() classifies
+by isinstance, so these are values of the property. The model sees the denoted tree.
+
+Fault-then-continue (stream `faults`): {"x": kind} is a host-supplied thing WITHOUT JSON form (NaN, infinities, an int beyond
+the int->str limit, an object with unsortable keys, over-deep nesting); a container can also be made to contain itself for
+a while. Serialising such an object must fail and is not judged; what IS judged is every serialisation of the same objects
+once the script has repaired them in place - nothing a failed call leaves behind may show. A witness is the whole history,
+or {"histories": [...]} when the failure needs the state left by the histories run before it in the same process.
+
+Outside the property / the model (never JUDGED): datetime / function / regex values (serialise as strings or null),
+non-string keys, NaN / infinities (`allow_nan=False` raises), lone surrogates (a Python str can hold them and json.dumps
+escapes them; a Lean `Char` cannot), containers that contain themselves, the text stringNew / concatenation give for a container.
 
 Negative zero: value_json(-0.0) == '-0' and jsonParse('-0') is the int 0; value_compare(-0.0, 0) == 0, so the value
 round-trips under the property's equality (numbers equal in value); the model's `norm` maps `fint true 0` to `int 0`.
 """
 
+import collections
+import enum
+import importlib
 import itertools
 import json
 import math
 import os
 import re
 import struct
+import subprocess
+import sys
+import unicodedata
 from fractions import Fraction
 
 import fw
@@ -65,7 +85,13 @@ LEVEL_TEXT = ('Theorems for all JSON values (unbounded depth and length, strings
               'differential streams; the property oracles (json.loads, jsonParse∘jsonStringify via value_compare, key order, '
               'number tokens, literal tokens, injectivity pool) run directly on the implementation - on tree-shaped values and on '
               'object graphs / histories (one container instance at several places, changed between serialisations, parsed back; '
-              'through the library functions and through scripts), each judged against a reference execution on plain trees.')
+              'through the library functions and through scripts), each judged against a reference execution on plain trees; on '
+              'strings and keys built from number-like text against every Unicode boundary character and keys from '
+              'collation-confusable groups; on host-supplied values of subclass types (int/float/str/list/dict subclasses, enum '
+              'members) through value_json, the library function, evaluate_expression and execute_script; and on '
+              'fault-then-continue histories (a serialisation / parse / argument validation fails on an object without JSON form, '
+              'the same objects are repaired in place and serialised again, thousands of such histories in one process, failures '
+              'confirmed in a fresh interpreter).')
 LEVEL_NOTE = ('Trusted: Lean kernel; extract.py; this harness. Modelled, not verified: float/int repr, json.dumps layout and escapes, '
               'CPython re, json.loads. Lone surrogates, NaN/inf, datetime/function values are outside the property.')
 
@@ -74,25 +100,133 @@ LEVEL_NOTE = ('Trusted: Lean kernel; extract.py; this harness. Modelled, not ver
 # ---------------------------------------------------------------------------------------------------------------------
 
 
-def to_wire(v):
+class OutOfDomain(Exception):
+    """the object denotes no JSON value of the property (contains itself, a non-finite / unprintable number, a non-string key)"""
+
+
+def to_wire(v, poison=(), _path=()):
+    """Wire form of the TREE the Python object v denotes. Host subclasses of int / float / str / list / dict (and enum members
+    mixed with them) denote the plain value - their own __repr__ / __str__ are never consulted. OutOfDomain when v denotes no
+    JSON value: it contains itself, a non-finite float, an int too long for int->str, a non-string key, or an object listed
+    (by id) in `poison`."""
     if v is None or isinstance(v, bool):
         return v
+    if poison and id(v) in poison:
+        raise OutOfDomain('poison')
     if isinstance(v, int):
+        v = int.__int__(v)
+        if v.bit_length() > 14000:
+            raise OutOfDomain('int beyond the int->str limit')
         return {'i': v}
     if isinstance(v, float):
+        v = float.__float__(v)
+        if not math.isfinite(v):
+            raise OutOfDomain('non-finite')
         if v.is_integer() and abs(v) < 1e16:
             return {'f': [math.copysign(1.0, v) < 0, int(abs(v))]}
-        return {'d': repr(v)}
+        return {'d': float.__repr__(v)}
     if isinstance(v, str):
-        return {'s': v}
-    if isinstance(v, list):
-        return {'a': [to_wire(x) for x in v]}
-    if isinstance(v, dict):
-        return {'o': [[k, to_wire(x)] for k, x in v.items()]}
+        return {'s': str.__str__(v)}
+    if isinstance(v, (list, dict)):
+        if id(v) in _path:
+            raise OutOfDomain('contains itself')
+        path = _path + (id(v),)
+        if isinstance(v, list):
+            return {'a': [to_wire(x, poison, path) for x in list.__iter__(v)]}
+        out = []
+        for k, x in dict.items(v):
+            if not isinstance(k, str):
+                raise OutOfDomain('non-string key')
+            out.append([str.__str__(k), to_wire(x, poison, path)])
+        return {'o': out}
     raise TypeError(type(v))
 
 
+class HInt(int):
+    """a host number type (a quantity, an id ...) with its own text forms"""
+
+    def __repr__(self):
+        return f'HInt({int.__repr__(self)})'
+
+    def __str__(self):
+        return f'#{int.__repr__(self)}'
+
+
+class HFloat(float):
+    def __repr__(self):
+        return f'HFloat({float.__repr__(self)})'
+
+    def __str__(self):
+        return f'{float.__repr__(self)} units'
+
+
+class HStr(str):
+    def __repr__(self):
+        return f'HStr({str.__repr__(self)})'
+
+    def __str__(self):
+        return '<HStr>'
+
+
+class HList(list):
+    def __repr__(self):
+        return 'HList(...)'
+
+
+class HDict(dict):
+    def __repr__(self):
+        return 'HDict(...)'
+
+
+def _host(kind, x):
+    """The host-side object of kind `kind` denoting the plain value x."""
+    if kind == 'int':
+        return HInt(x)
+    if kind == 'float':
+        return HFloat(x)
+    if kind == 'str':
+        return HStr(x)
+    if kind == 'list':
+        return HList(x)
+    if kind == 'dict':
+        return HDict(x)
+    if kind == 'odict':
+        return collections.OrderedDict(x)
+    if kind == 'ddict':
+        return collections.defaultdict(list, x)
+    if kind == 'intenum':
+        return enum.IntEnum('Level', {'M': x}).M       # pylint: disable=no-member
+    if kind == 'strenum':
+        return enum.Enum('Colour', {'M': x}, type=str).M   # pylint: disable=no-member
+    raise ValueError(kind)
+
+
+HOST_KINDS = {'i': ['int', 'intenum'], 'f': ['float'], 'd': ['float'], 's': ['str', 'strenum'], 'a': ['list'], 'o': ['dict', 'odict', 'ddict']}
+DEEP_NESTING = 6000
+
+
+def _poison(kind):
+    """Host-supplied things with NO JSON form (the serialiser must fail on them, anywhere in a value)."""
+    if kind in ('nan', 'inf', '-inf'):
+        return float(kind)
+    if kind == 'bigint':
+        return 10 ** 5000
+    if kind == 'badkeys':
+        return {1: 'a', 'b': 2}
+    if kind == 'deep':
+        x = []
+        for _ in range(DEEP_NESTING):
+            x = [x]
+        return x
+    raise ValueError(kind)
+
+
+POISONS = ['nan', 'inf', '-inf', 'nan', 'inf', '-inf', 'nan', 'bigint', 'bigint', 'badkeys', 'badkeys', 'deep']
+
+
 def from_wire(w):
+    """wire -> Python object. Besides the model's forms: {"h": [kind, wire]} a host object of a subclass type denoting the inner
+    value (HOST_KINDS), {"x": kind} a host-supplied thing without JSON form (POISONS)."""
     if w is None or isinstance(w, bool):
         return w
     (k, x), = w.items()
@@ -107,8 +241,32 @@ def from_wire(w):
     if k == 'a':
         return [from_wire(y) for y in x]
     if k == 'o':
-        return {kk: from_wire(y) for kk, y in x}
+        return {from_wire(kk) if isinstance(kk, dict) else kk: from_wire(y) for kk, y in x}
+    if k == 'h':
+        return _host(x[0], from_wire(x[1]))
+    if k == 'x':
+        return _poison(x)
     raise ValueError(k)
+
+
+def plain_wire(w):
+    """the model's wire form of the tree a (possibly host-typed) wire value denotes"""
+    if w is None or isinstance(w, bool):
+        return w
+    (k, x), = w.items()
+    if k == 'h':
+        return plain_wire(x[1])
+    if k == 'a':
+        return {'a': [plain_wire(y) for y in x]}
+    if k == 'o':
+        return {'o': [[plain_wire(kk)['s'] if isinstance(kk, dict) else kk, plain_wire(y)] for kk, y in x]}
+    if k == 'x':
+        raise OutOfDomain(x)
+    return w
+
+
+def is_poison_wire(w):
+    return isinstance(w, dict) and 'x' in w
 
 
 def canon(v):
@@ -289,14 +447,14 @@ def text_failures(impl, text, parse_text, want):
     return fails
 
 
-def oracle_failures(impl, v, indent, extra=None, ref=None):
+def oracle_failures(impl, v, indent, extra=None, ref=None, lib_indent=None):
     """All property oracles on the real implementation for value v and indent (None or int).
     -> (list of (oracle, expected, actual) - empty when the property holds on this input -, text of value_json or None).
     `ref` is an independent plain-tree copy of v made BEFORE the call (every container a fresh object): the texts are judged
     against it, so neither the object identity of v's parts (one array referenced from two places) nor anything the
     serialiser does to its argument can leak into the expectation; extra['mutated'] is set when v no longer equals ref afterwards.
     extra['jsonStringify'] receives what the library function returned (correspondence only: a different but valid layout is not
-    a violation of the property)."""
+    a violation of the property). `lib_indent`: the object handed to the library function as indent (a host number type)."""
     fails = []
     extra = {} if extra is None else extra
     want = v if ref is None else ref
@@ -310,7 +468,7 @@ def oracle_failures(impl, v, indent, extra=None, ref=None):
 
     # jsonStringify (library function, indent as int or float) is value_json
     try:
-        args = [v] if indent is None else [v, float(indent) if indent % 2 else indent]
+        args = [v] if indent is None else [v, lib_indent if lib_indent is not None else float(indent) if indent % 2 else indent]
         lib_text = library._json_stringify(args, None)  # pylint: disable=protected-access
         extra['jsonStringify'] = lib_text
     except Exception as exc:  # pylint: disable=broad-except
@@ -352,8 +510,10 @@ def gen_string(rng):
         return ''
     if r < 0.5:
         return ''.join(rng.choice(SMALL) for _ in range(rng.randint(1, 6)))
-    if r < 0.9:
+    if r < 0.78:
         return ''.join(rng.choice(NASTY) for _ in range(rng.randint(1, 8)))
+    if r < 0.9:
+        return gen_unit_string(rng)
     # arbitrary scalar values
     out = []
     for _ in range(rng.randint(1, 5)):
@@ -361,6 +521,50 @@ def gen_string(rng):
         if 0xd800 <= c <= 0xdfff:
             c = 0x41
         out.append(chr(c))
+    return ''.join(out)
+
+
+def _special_chars():
+    """Every character that some text-level tool treats as a boundary: Unicode separators (Zs/Zl/Zp), controls (Cc), format
+    characters (Cf), whatever str.isspace / str.splitlines / regex \\s recognise - plus the JSON-significant ASCII characters and a
+    few ordinary / extreme ones. Computed from the running Python's tables (about 290 characters)."""
+    out = []
+    for c in range(0x110000):
+        if 0xd800 <= c <= 0xdfff:
+            continue
+        ch = chr(c)
+        if unicodedata.category(ch) in ('Zs', 'Zl', 'Zp', 'Cc', 'Cf') or ch.isspace() or len(('a' + ch + 'b').splitlines()) > 1:
+            out.append(ch)
+    out = sorted(set(out))
+    extra = ['"', '\\', '/', ',', ':', '[', ']', '{', '}', ' ', '-', '+', 'e', 'E', 'a', '0', '9', '_', '~', '!', '\xe9', '\xdf', '\u0130', '\u0663', '\u0969', '\uff13',
+             '\U0001d7cf', '\ud7ff', '\ue000', '\ufffd', '\uffff', '\U00010000', '\U0001f600', '\U0010ffff', '\u0301', '\u200d']
+    have = set(out)
+    return out + [c for c in extra if c not in have]
+
+
+SPECIAL = _special_chars()
+LINE_BOUNDARIES = [c for c in SPECIAL if len(('a' + c + 'b').splitlines()) > 1]
+# text that looks like (part of) a number or a JSON token - what a clean-up pass may take for one
+NUMLIKE = ['2.0', '0.0', '1.00', '7.0,', '5.0]', '3.0}', '4.0 ', '-1.0', '6.0:', '1e+16', '1.5', '.0', '.00,', '10', '1.0e5', '\u0663.0', '\uff13.0,', '"8.0', '\\9.0',
+           '0', '-0.0', 'null', 'true', '1.0"', '2.0\\']
+
+
+def boundary_strings(c, frag):
+    """the four placements of a number-like fragment against the character c"""
+    return [frag + c + 'x', frag + c, c + frag, 'v ' + frag + c + frag]
+
+
+def gen_unit_string(rng):
+    """a string made of whole units: number-like fragments, boundary characters, ordinary text"""
+    out = []
+    for _ in range(rng.randint(1, 5)):
+        r = rng.random()
+        if r < 0.4:
+            out.append(rng.choice(NUMLIKE))
+        elif r < 0.8:
+            out.append(rng.choice(LINE_BOUNDARIES if rng.random() < 0.3 else SPECIAL))
+        else:
+            out.append(rng.choice(['x', 'version ', 'a', ' ', 'k']))
     return ''.join(out)
 
 
@@ -435,13 +639,16 @@ def load_corpus():
 def run_encode_cases(ctx, st, stream, cases, pool):
     """cases: [(value, indent, tags)]. Model correspondence + oracles + injectivity pool."""
     impl = fw.impl()
-    reqs = [{'op': 'encode', 'value': to_wire(v), 'indent': ind or 0} for v, ind, _ in cases]
+    cases = [(c + (None, None))[:5] for c in cases]     # (value, indent, tags[, host wire form of the value[, wire of the indent object]])
+    reqs = [{'op': 'encode', 'value': to_wire(v), 'indent': ind or 0} for v, ind, _, _, _ in cases]
     resps = ctx.driver.batch(reqs)
     texts = []
-    for (v, ind, tags), req, resp in zip(cases, reqs, resps):
-        case = {'value': req['value'], 'indent': ind}
+    for (v, ind, tags, hostwire, indwire), req, resp in zip(cases, reqs, resps):
+        case = {'value': req['value'] if hostwire is None else hostwire, 'indent': ind}
+        if indwire is not None:
+            case['indent_object'] = indwire
         extra = {}
-        fails, text = oracle_failures(impl, v, ind, extra, ref=from_wire(req['value']))
+        fails, text = oracle_failures(impl, v, ind, extra, ref=from_wire(req['value']), lib_indent=None if indwire is None else from_wire(indwire))
         nontrivial = isinstance(v, (list, dict)) and len(v) > 0
         if extra.get('mutated'):
             ctx.disagree(stream, case, {'argument after the call': to_wire(v)}, {'argument': req['value']}, 'value_json changed its argument')
@@ -460,7 +667,7 @@ def run_encode_cases(ctx, st, stream, cases, pool):
         if text is not None:
             texts.append(text)
             # injectivity on the pool: one text, one value
-            key = json.dumps(canon(v), ensure_ascii=True)
+            key = json.dumps(canon(from_wire(req['value'])), ensure_ascii=True)
             prev = pool.setdefault(text, (key, case))
             if prev[0] != key:
                 ctx.witness('injective', {'value': case['value'], 'indent': ind, 'other': prev[1]}, 'different values, different texts', text[:300])
@@ -544,6 +751,195 @@ def stream_strings(ctx, pool):
         run_encode_cases(ctx, st, 'strings', cases[i:i + 20000], pool)
     st.exhaustive = not ctx.quick
     return strings
+
+
+def char_class(c):
+    if c in LINE_BOUNDARIES:
+        return 'line-boundary'
+    if c.isspace():
+        return 'space'
+    cat = unicodedata.category(c)
+    return cat if cat in ('Cc', 'Cf') else 'other'
+
+
+def gen_unit_value(rng, depth):
+    r = rng.random()
+    if depth <= 0 or r < 0.35:
+        return gen_unit_string(rng) if rng.random() < 0.8 else gen_number(rng)
+    if r < 0.65:
+        return [gen_unit_value(rng, depth - 1) for _ in range(rng.choice([1, 2, 2, 3]))]
+    return {gen_unit_string(rng): gen_unit_value(rng, depth - 1) for _ in range(rng.choice([1, 2, 2, 3]))}
+
+
+# keys that other collations order differently from code-point order (the order of the property: sorted() on str)
+KEY_GROUPS = [['a', 'B', 'b', 'A'], ['E', '_', 'e', 'Z', 'a', '^'],                                        # case-insensitive
+              ['\uffff', '\U00010000', '\ue000', '\ud7ff', '\U0010ffff', '\ufb01', '\U0001f600'],              # UTF-16 code units
+              ['10', '9', '2', '1', '01', '1.0', '-1', '+1', '_1'],                                        # numeric-aware
+              ['a', 'a ', 'a!', 'a"', 'a\\', 'a/', 'ab', 'a\x7f', 'a\x00', 'a\n', 'a\xe9', 'a~', 'a_', 'aZ'],  # escaped text instead of the key
+              ['\xe9', 'e\u0301', 'f', 'e', '\xeb', 'z', 'E'],                                            # normalisation / locale
+              ['', ' ', '\t', '\x00', '0'],
+              ['k', 'K', '\u212a', '\u017f', 's', 'S', '\xdf', 'ss', 'i', 'I', '\u0130', '\u0131']]          # case folding specials
+
+
+def key_order_cases(rng, quick):
+    cases = []
+    for group in KEY_GROUPS:
+        for a, b in itertools.permutations(group, 2):
+            for ind in ([rng.choice([None, 2])] if quick else [None, 1, 4]):
+                cases.append(({a: 1, b: [{b: 2.0, a: 'v'}]}, ind, ['key-order', 'pair']))
+    for _ in range(300 if quick else 6000):
+        keys = rng.sample(rng.choice(KEY_GROUPS) if rng.random() < 0.7 else sorted({k for g in KEY_GROUPS for k in g}), 3)
+        rng.shuffle(keys)
+        cases.append(({k: i for i, k in enumerate(keys)}, rng.choice(INDENTS), ['key-order', 'random']))
+    return cases
+
+
+def stream_boundaries(ctx, pool):
+    """Text that looks like a number (or a JSON token) directly against every character some text tool treats as a boundary.
+    The serialiser works in stages (encoder, then a clean-up over the produced TEXT): whatever unit a stage works on - the whole
+    text, a line, a token, a \\s-separated word - a string must pass through untouched. The tree streams draw strings character
+    by character from a small alphabet, so '2.0' + U+2028 inside an indented value practically never came up."""
+    st = ctx.stream('boundaries', f'strings and keys in which a number-like fragment ({len(NUMLIKE)} of them: 2.0 1.00 7.0, 5.0] -1.0 1e+16 .0 "8.0 '
+                                  f'null ..., also with non-ASCII digits) stands before / after / around EVERY boundary character ({len(SPECIAL)}: all '
+                                  'of Unicode Zs/Zl/Zp/Cc/Cf, everything str.isspace / str.splitlines / \\s know, the JSON-significant ASCII, extreme '
+                                  'code points), in four placements, as array element / key / object value / nested element next to integral '
+                                  'floats and as the top-level value, compact and indented (line boundaries: every indent); plus random '
+                                  'values whose strings are concatenations of such units; plus objects whose keys come from groups that other '
+                                  'collations (case-insensitive, UTF-16 code units, numeric-aware, escaped text, normalisation, case folding) order '
+                                  'differently from code-point order, every ordered pair; encoder correspondence with the model + all property '
+                                  'oracles; non-trivial = container value')
+    rng = ctx.rng('boundaries')
+    all_inds = [None, 1, 2, 3, 4, 8]
+    cases = []
+    for c in SPECIAL:
+        cls = char_class(c)
+        for frag in NUMLIKE:
+            strs = boundary_strings(c, frag)
+            inds = all_inds if (cls == 'line-boundary' or not ctx.quick) else [rng.choice([None, 1, 2, 4])]
+            for ind in inds:
+                rng.shuffle(strs)
+                cases.append(([strs[0], 1.0, {strs[1]: strs[2], 'k': [strs[3], 2.0]}], ind, ['packed', cls]))
+            for s in (strs if not ctx.quick else [rng.choice(strs)]):
+                cases.append((s, rng.choice([None, 2]), ['top-level', cls]))
+                if not ctx.quick:
+                    cases.append(({s: s}, rng.choice(all_inds), ['key=value', cls]))
+    for _ in range(ctx.scale(2000, 40000)):
+        cases.append((gen_unit_value(rng, rng.randint(0, 3)), rng.choice(INDENTS + [12, 16, 31]), ['random-units']))
+    cases += key_order_cases(rng, ctx.quick)
+    for i in range(0, len(cases), 20000):
+        run_encode_cases(ctx, st, 'boundaries', cases[i:i + 20000], pool)
+    st.exhaustive = False
+
+
+# ---------------------------------------------------------------------------------------------------------------------
+# host-boundary values: the host hands the script numbers / strings / containers of SUBCLASS types
+# ---------------------------------------------------------------------------------------------------------------------
+#
+# value_type() classifies by isinstance, so an IntEnum member IS a number, a str-mixin Enum member or a str subclass IS a string, an
+# OrderedDict / defaultdict IS an object for the interpreter - they are values of the property. Their own __repr__ / __str__ differ
+# from the plain value's ('<Level.M: 3>', 'HFloat(2.0)'), so a serialiser that formats with repr() / str() / f-strings, or that
+# dispatches on type(v) is ..., goes wrong only here. The Lean model cannot see host types: it is compared on the denoted tree.
+
+
+def hostify(rng, w, p):
+    """wire -> wire in which nodes (and object keys) are wrapped as host-typed objects with probability p"""
+    if w is None or isinstance(w, bool):
+        return w
+    (k, x), = w.items()
+    if k == 'a':
+        w = {'a': [hostify(rng, y, p) for y in x]}
+    elif k == 'o':
+        w = {'o': [[hostify(rng, {'s': kk}, p) if rng.random() < p else kk, hostify(rng, y, p)] for kk, y in x]}
+    if rng.random() < p:
+        return {'h': [rng.choice(HOST_KINDS[k]), w]}
+    return w
+
+
+def has_host(w):
+    return '"h"' in json.dumps(w)
+
+
+def mode_sources(ind, with_indent_object):
+    """(mode, source, expected shape) - the value is the host global v, the indent object the host global n"""
+    arg = '' if ind is None else (', n' if with_indent_object else f', {ind}')
+    return [('expr', f'jsonStringify(v{arg})', 'v'),
+            ('script', f'return jsonStringify(v{arg})\n', 'v'),
+            ('script', f"w = arrayNew(v, objectNew('k', v))\nreturn jsonStringify(w{arg})\n", 'wrapped'),
+            ('expr', f"jsonStringify(objectNew('v', v, 'c', arrayCopy(arrayNew(v))){arg})", 'wrapped2')]
+
+
+def modes_failures(impl, wire, ind, indwire=None, only=None):
+    """The value (wire form, host types allowed) serialised from inside the interpreter: expression and script entry points,
+    alone and inside containers built by library functions. -> [(oracle, case extras, expected, actual)]"""
+    out = []
+    plain = plain_wire(wire)
+    for i, (mode, src, shape) in enumerate(mode_sources(ind, indwire is not None)):
+        if only is not None and i != only:
+            continue
+        v = from_wire(wire)
+        glob = {'v': v}
+        if indwire is not None:
+            glob['n'] = from_wire(indwire)
+        p = from_wire(plain)
+        want = {'v': p, 'wrapped': [p, {'k': p}], 'wrapped2': {'v': p, 'c': [p]}}[shape]
+        try:
+            if mode == 'expr':
+                # evaluate_expression knows the expression built-ins only: the host passes the library functions it wants as globals
+                glob.update({k: impl['library'].SCRIPT_FUNCTIONS[k] for k in ('jsonStringify', 'objectNew', 'arrayNew', 'arrayCopy')})
+                text = impl['runtime'].evaluate_expression(impl['parser'].parse_expression(src), {'globals': glob})
+            else:
+                text = impl['runtime'].execute_script(impl['parser'].parse_script(src), {'globals': glob, 'maxStatements': 100})
+        except Exception as exc:  # pylint: disable=broad-except
+            out.append(('serialises', {'mode': mode, 'source': src}, 'a JSON text', f'{type(exc).__name__}: {exc}'[:300]))
+            continue
+        if not isinstance(text, str):
+            out.append(('serialises', {'mode': mode, 'source': src}, 'a JSON text', repr(text)[:200]))
+            continue
+        for oracle, w_, g_ in text_failures(impl, text, text, want):
+            out.append((oracle, {'mode': mode, 'source': src}, w_, g_))
+    return out
+
+
+def stream_hostvalues(ctx, pool):
+    st = ctx.stream('hostvalues', 'values supplied by the HOST with subclass types at any node: int subclass / IntEnum member, float subclass, str '
+                                  'subclass / str-mixin Enum member (also as object key), list subclass, dict subclass / OrderedDict / defaultdict - all '
+                                  'with __repr__ / __str__ that differ from the plain value; the indent too as int subclass / float subclass / IntEnum / '
+                                  'integral float; serialised by value_json, by the library function, and from inside the interpreter '
+                                  '(evaluate_expression and execute_script; bare and inside containers built by arrayNew / objectNew / arrayCopy); '
+                                  'every text judged by all property oracles against the plain tree the value denotes. Host types do not exist in '
+                                  'the Lean model: the model encoder is compared on the denoted tree (implementation-side oracles carry the '
+                                  'host-type part); non-trivial = at least one host-typed node')
+    rng = ctx.rng('hostvalues')
+    impl = fw.impl()
+    cases = []
+    seeds = [None, True] + INTS[:8] + FLOATS[:12] + ['', 'a.0,', 'x"y', '\u2028', 'é']
+    for x in seeds:
+        w = to_wire(x)
+        if isinstance(w, dict):
+            for kind in HOST_KINDS[next(iter(w))]:
+                cases.append(({'h': [kind, w]}, None, ['scalar', kind]))
+                cases.append(({'a': [{'h': [kind, w]}, {'f': [False, 1]}]}, rng.choice(INDENTS), ['scalar-in-array', kind]))
+    for _ in range(ctx.scale(1200, 30000)):
+        plain = to_wire(gen_value(rng, rng.randint(0, 4), top=rng.random() < 0.7))
+        hw = hostify(rng, plain, rng.choice([0.15, 0.4, 1.0]))
+        cases.append((hw, rng.choice(INDENTS), ['random']))
+    enc = []
+    for hw, ind, tags in cases:
+        indwire = None
+        if ind is not None and rng.random() < 0.5:
+            indwire = rng.choice([{'h': ['int', {'i': ind}]}, {'h': ['intenum', {'i': ind}]}, {'h': ['float', {'f': [False, ind]}]}, {'f': [False, ind]}])
+        assert to_wire(from_wire(hw)) == plain_wire(hw)
+        enc.append((from_wire(hw), ind, tags + (['host'] if has_host(hw) else ['plain']), hw, indwire))
+    run_encode_cases(ctx, st, 'hostvalues', enc, pool)
+    # from inside the interpreter
+    for n, (_, ind, _, hw, indwire) in enumerate(enc):
+        for oracle, more, want, got in modes_failures(impl, hw, ind, indwire, only=None if not ctx.quick else n % 4):
+            case = {'value': hw, 'indent': ind}
+            if indwire is not None:
+                case['indent_object'] = indwire
+            case.update(more)
+            ctx.witness(oracle, case, want, got)
+    st.exhaustive = False
 
 
 def regex_cleanup(impl, text):
@@ -717,7 +1113,23 @@ def stream_reparse(ctx):
 #      | ["drop", j]                            bj = null (the object may be freed and its id reused)
 #      | ["ser", item, indent | null]           t_new = jsonStringify(item[, indent])    <- every one is judged by all oracles
 #      | ["parse", k]                           b_new = jsonParse(t_k)
-# A step only ever stores binding j into a binding with a larger index, so no container can contain itself (F18 stays out).
+# A step of stream `history` only ever stores binding j into a binding with a larger index, so no container can contain itself.
+#
+# Fault-then-continue histories (stream `faults`) add: scalars {"x": kind} - host-supplied things WITHOUT a JSON form (NaN, +-inf,
+# an int beyond the int->str limit, an object with unsortable keys, nesting beyond the recursion limit) - and {"h": [kind, wire]}
+# host-typed values; "set" / "push" with ANY item (so a container can be made to contain itself or one of its containers), and
+#        ["ser", item, indent | null, route]    route "json" (default): t_new, or null / an exception when the object has no JSON form
+#                                               at that moment - expected then, and not judged;
+#                                               route "str" = stringNew(item) | "cat" = '' + item: other ways into the serialiser
+#                                               (containers stringify through it) - they may fail inside it like jsonStringify,
+#                                               their result is NOT judged (the property is about jsonStringify)
+#      | ["bad", item, how]                     a call that fails argument validation with the object as (part of) the offending
+#                                               arguments: how = "len" stringLength(item) | "ind0" jsonStringify(item, 0) |
+#                                               "indfrac" jsonStringify(item, 1.5) | "indstr" jsonStringify(item, 'x') | "extra" jsonStringify(item, 2, item)
+#      | ["badparse", k, num, den]              jsonParse of the first len*num/den characters of t_k (fails unless that is JSON)
+#      | ["pop", j]                             arrayPop(bj)
+# What is judged is every serialisation of an object that DOES denote a JSON value at that moment - in particular after a failed
+# call on the very same objects and their in-place repair.
 
 CONFUSABLE = [[True, 1, 1.0], [False, 0, 0.0, -0.0], ['1', 1, 1.0], [None, 'null', 'None'], ['', 0, False, None], ['true', True], [2 ** 53, float(2 ** 53)],
               ['a', 'a.0,'], [1.5, '1.5'], [10 ** 16, 1e16]]
@@ -726,6 +1138,15 @@ HIST_MAX_TREE = 250
 
 class HistoryAbort(Exception):
     pass
+
+
+NO_JSON = 'no JSON form'      # snapshot of a serialisation whose object denotes no JSON value at that moment
+NOT_JUDGED = 'not judged'     # snapshot of a stringNew / concatenation step: the property speaks of jsonStringify only - these
+                              # reach the serialiser (and may fail inside it), their result is nobody's business here
+
+
+BAD_CALLS = {'len': 'stringLength({0})', 'ind0': 'jsonStringify({0}, 0)', 'indfrac': 'jsonStringify({0}, 1.5)', 'indstr': "jsonStringify({0}, 'x')",
+             'extra': 'jsonStringify({0}, 2, {0})'}
 
 
 class RefBackend:
@@ -762,6 +1183,11 @@ class RefBackend:
     def delete(b, key):
         b.pop(key, None)
 
+    @staticmethod
+    def pop(b):
+        if b:
+            b.pop()
+
 
 class LibBackend:
     """The same steps through the library functions of the implementation (called in-process)."""
@@ -790,10 +1216,15 @@ class LibBackend:
     def delete(self, b, key):
         self.fn['objectDelete']([b, key], None)
 
+    def pop(self, b):
+        if b:
+            self.fn['arrayPop']([b], None)
 
-def run_history(hist, backend, on_ser, on_parse):
-    """Execute the steps; on_ser(n, step index, object, indent) at the n-th "ser", on_parse(k) -> the value of jsonParse(t_k)."""
-    scal = [from_wire(w) for w in hist['scalars']]
+
+def run_history(hist, backend, on_ser, on_parse, on_aux=None, scal=None):
+    """Execute the steps; on_ser(n, step index, object, indent, route) at the n-th "ser", on_parse(k) -> the value of jsonParse(t_k),
+    on_aux(step index, step, object | None) at "bad" / "badparse" steps."""
+    scal = [from_wire(w) for w in hist['scalars']] if scal is None else scal
     binds = []
 
     def item(it):
@@ -818,11 +1249,19 @@ def run_history(hist, backend, on_ser, on_parse):
             backend.delete(binds[step[1]], scal[step[2]])
         elif op == 'drop':
             binds[step[1]] = None
+        elif op == 'pop':
+            backend.pop(binds[step[1]])
         elif op == 'ser':
-            on_ser(nser, ix, item(step[1]), step[2])
+            on_ser(nser, ix, item(step[1]), step[2], step[3] if len(step) > 3 else 'json')
             nser += 1
         elif op == 'parse':
             binds.append(on_parse(step[1]))
+        elif op == 'bad':
+            if on_aux is not None:
+                on_aux(ix, step, item(step[1]))
+        elif op == 'badparse':
+            if on_aux is not None:
+                on_aux(ix, step, None)
         else:
             raise ValueError(op)
     return binds
@@ -841,9 +1280,29 @@ def parsed_form(v):
 
 
 def history_snapshots(hist):
-    """-> wire trees of what every "ser" step must serialise (reference run)."""
+    """-> wire trees of what every "ser" step must serialise (reference run); NO_JSON where the object denotes no JSON value at that
+    moment (it contains itself / a host-supplied thing without JSON form): the serialisation is expected to fail there."""
     snaps = []
-    run_history(hist, RefBackend, lambda n, ix, obj, ind: snaps.append(to_wire(obj)), lambda k: parsed_form(from_wire(snaps[k])))
+    scal = [from_wire(w) for w in hist['scalars']]
+    poison = {id(x) for x, w in zip(scal, hist['scalars']) if is_poison_wire(w)}
+
+    def on_ser(n, ix, obj, ind, route):
+        if route != 'json':
+            snaps.append(NOT_JUDGED)
+            return
+        try:
+            snaps.append(to_wire(obj, poison))
+        except OutOfDomain:
+            snaps.append(NO_JSON)
+
+    def on_parse(k):
+        if snaps[k] in (NO_JSON, NOT_JUDGED):
+            raise HistoryAbort()
+        return parsed_form(from_wire(snaps[k]))
+    try:
+        run_history(hist, RefBackend, on_ser, on_parse, scal=scal)
+    except HistoryAbort:
+        pass
     return snaps
 
 
@@ -1022,7 +1481,7 @@ def history_script(hist):
     """The history as BareScript source (+ the host globals holding the leaves); returns the texts t0, t1, ... as an array."""
     kinds = hist['kinds']
     lines = []
-    nb = nt = 0
+    nb = nt = nu = 0
 
     def item(it):
         return f's{it[1]}' if it[0] == 's' else f'b{it[1]}'
@@ -1051,34 +1510,119 @@ def history_script(hist):
             lines.append(f'objectDelete(b{step[1]}, s{step[2]})')
         elif op == 'drop':
             lines.append(f'b{step[1]} = null')
+        elif op == 'pop':
+            lines.append(f'if arrayLength(b{step[1]}) > 0:\n    arrayPop(b{step[1]})\nendif')
         elif op == 'ser':
-            lines.append(f't{nt} = jsonStringify({item(step[1])}' + (')' if step[2] is None else f', {step[2]})'))
+            route = step[3] if len(step) > 3 else 'json'
+            if route == 'str':
+                lines.append(f't{nt} = stringNew({item(step[1])})')
+            elif route == 'cat':
+                lines.append(f"t{nt} = '' + {item(step[1])}")
+            else:
+                lines.append(f't{nt} = jsonStringify({item(step[1])}' + (')' if step[2] is None else f', {step[2]})'))
             nt += 1
         elif op == 'parse':
             lines.append(f'b{nb} = jsonParse(t{step[1]})')
             nb += 1
+        elif op == 'bad':
+            lines.append(f'u{nu} = ' + BAD_CALLS[step[2]].format(item(step[1])))
+            nu += 1
+        elif op == 'badparse':
+            lines.append(f'if t{step[1]} != null:\n    u{nu} = jsonParse(stringSlice(t{step[1]}, 0, mathFloor(stringLength(t{step[1]}) * {step[2]} / {step[3]})))\nendif')
+            nu += 1
     lines.append(f'return arrayNew({", ".join(f"t{i}" for i in range(nt))})')
     return '\n'.join(lines) + '\n', {f's{i}': from_wire(w) for i, w in enumerate(hist['scalars'])}
 
 
-def history_direct(impl, hist, snaps):
-    """Run the history through the library functions, judging every "ser" with all oracles against the reference snapshot.
-    -> [(n, step index, indent, fails, text, extra)] (stops at the first serialisation that gives no text)."""
+def route_call(impl, route, obj, ind):
+    """one serialisation of obj through a route other than jsonStringify"""
+    if route == 'str':
+        return impl['library'].SCRIPT_FUNCTIONS['stringNew']([obj], None)
+    expr = {'binary': {'op': '+', 'left': {'string': ''}, 'right': {'variable': 'x'}}}
+    return impl['runtime'].evaluate_expression(expr, {'globals': {'x': obj}})
+
+
+def history_direct(impl, hist, snaps, aux=None, problems=None):
+    """Run the history through the library functions, judging every "ser" of an object that denotes a JSON value with all oracles
+    against the reference snapshot. -> [(n, step index, indent, fails, text, extra)] (stops at the first in-domain serialisation
+    that gives no text). A "ser" whose snapshot is NO_JSON is EXPECTED to fail: extra['expected_failure'] holds what happened
+    ('raises' | 'null' | 'text'), nothing is judged. aux (a list) receives (step index, step, outcome) of "bad" / "badparse" steps;
+    problems (a list) receives (oracle, {'step': ..}, expected, actual) for a "parse" step at which jsonParse does not accept a text
+    that jsonStringify produced for an in-domain value earlier in the history."""
     out = []
     texts = {}
+    fn = impl['library'].SCRIPT_FUNCTIONS
 
-    def on_ser(n, ix, obj, ind):
-        extra = {'shared': shared_containers(obj)}
+    def on_ser(n, ix, obj, ind, route):
+        if n >= len(snaps):
+            raise HistoryAbort()
+        if snaps[n] == NOT_JUDGED:
+            try:
+                route_call(impl, route, obj, ind)
+            except (ValueError, TypeError, RecursionError):
+                pass
+            out.append((n, ix, ind, [], None, {'shared': 0, 'not_judged': True, 'route': route}))
+            texts[n] = None
+            return
+        if snaps[n] == NO_JSON:
+            got = []
+            calls = [lambda: impl['value'].value_json(obj, ind), lambda: fn['jsonStringify']([obj] if ind is None else [obj, ind], None)]
+            for call in calls:
+                try:
+                    res = call()
+                    got.append('null' if res is None else 'text')
+                except (ValueError, TypeError, RecursionError):
+                    got.append('raises')
+            out.append((n, ix, ind, [], None, {'shared': 0, 'expected_failure': got, 'route': route}))
+            texts[n] = None
+            return
+        extra = {'shared': shared_containers(obj), 'route': route}
         fails, text = oracle_failures(impl, obj, ind, extra, ref=from_wire(snaps[n]))
-        out.append((n, ix, ind, fails, text, extra))
         texts[n] = extra.get('jsonStringify') if isinstance(extra.get('jsonStringify'), str) else text
+        out.append((n, ix, ind, fails, text, extra))
 
     def on_parse(k):
         if not isinstance(texts.get(k), str):
             raise HistoryAbort()
-        return impl['library'].SCRIPT_FUNCTIONS['jsonParse']([texts[k]], None)
+        try:
+            return fn['jsonParse']([texts[k]], None)
+        except Exception as exc:  # pylint: disable=broad-except
+            if problems is not None and not any(r[0] == k and r[3] for r in out):
+                problems.append(('jsonParse-jsonStringify', {'parse_of_ser': k, 'text': texts[k][:300]}, canon(from_wire(snaps[k])), f'{type(exc).__name__}: {exc}'[:300]))
+            raise HistoryAbort() from exc
+
+    def on_aux(ix, step, obj):
+        if step[0] == 'bad':
+            how = step[2]
+            args = {'len': [obj], 'ind0': [obj, 0], 'indfrac': [obj, 1.5], 'indstr': [obj, 'x'], 'extra': [obj, 2, obj]}[how]
+            try:
+                (fn['stringLength'] if how == 'len' else fn['jsonStringify'])(args, None)
+                res = 'returns'
+            except Exception:  # pylint: disable=broad-except
+                res = 'raises'
+            if aux is not None:
+                aux.append((ix, step, res, 'raises'))
+        else:
+            t = texts.get(step[1])
+            if not isinstance(t, str):
+                return
+            piece = t[:len(t) * step[2] // step[3]]
+            try:
+                want = ['ok', canon(json.loads(piece))]
+            except ValueError:
+                want = ['rejects']
+            except RecursionError:
+                return
+            try:
+                res = ['ok', canon(fn['jsonParse']([piece], None))]
+            except ValueError:
+                res = ['rejects']
+            except Exception as exc:  # pylint: disable=broad-except
+                res = ['raises', type(exc).__name__]
+            if aux is not None:
+                aux.append((ix, step, res, want))
     try:
-        run_history(hist, LibBackend(impl), on_ser, on_parse)
+        run_history(hist, LibBackend(impl), on_ser, on_parse, on_aux)
     except HistoryAbort:
         pass
     except Exception as exc:  # pylint: disable=broad-except
@@ -1098,11 +1642,14 @@ def history_script_run(impl, hist):
 
 
 def history_script_failures(impl, hist, snaps):
-    """The same history as a script: every returned text against the reference snapshot. -> (source, result, [(n, fails)])"""
+    """The same history as a script: every returned text against the reference snapshot (a snapshot NO_JSON = the serialisation is
+    expected to yield null; not judged). -> (source, result, [(n, fails)])"""
     src, res = history_script_run(impl, hist)
     out = []
     if isinstance(res, list) and len(res) == len(snaps):
         for n, (text, snap) in enumerate(zip(res, snaps)):
+            if snap in (NO_JSON, NOT_JUDGED):
+                continue
             if not isinstance(text, str):
                 out.append((n, [('serialises', 'a JSON text', repr(text)[:200])]))
                 continue
@@ -1138,59 +1685,88 @@ def history_tags(hist):
         if s[0] in ('push', 'set', 'del') and seen_ser:
             tags.append('changed-after-ser')
             break
-    for op in ('copy', 'fill', 'parse', 'drop'):
+    for op in ('copy', 'fill', 'parse', 'drop', 'bad', 'badparse', 'pop'):
         if op in ops:
             tags.append(op)
     if any(s[0] == 'ser' and s[1][0] == 's' for s in hist['steps']):
         tags.append('scalar-ser')
+    for s in hist['steps']:
+        if s[0] == 'ser' and len(s) > 3:
+            tags.append('route=' + s[3])
+    kinds_x = sorted({w['x'] for w in hist['scalars'] if is_poison_wire(w)})
+    tags += ['poison=' + k for k in kinds_x]
+    if any(s[0] in ('set', 'push') and s[-1][0] == 'b' and s[-1][1] >= s[1] for s in hist['steps']):
+        tags.append('cycle')
     return tags
 
 
-def run_history_cases(ctx, st, hists, pool):
+def run_history_cases(ctx, st, hists, pool, stream='history', emit=None):
+    """emit(history index, oracle, case, expected, actual) reports a property failure (default: ctx.witness)."""
     impl = fw.impl()
+    if emit is None:
+        def emit(_i, oracle, case, want, got):
+            ctx.witness(oracle, case, want, got)
     snaps_all = [history_snapshots(h) for h in hists]
     reqs = []
     for h, snaps in zip(hists, snaps_all):
         sers = [s for s in h['steps'] if s[0] == 'ser']
-        reqs += [{'op': 'encode', 'value': snap, 'indent': s[2] or 0} for s, snap in zip(sers, snaps)]
+        reqs += [{'op': 'encode', 'value': snap, 'indent': s[2] or 0} for s, snap in zip(sers, snaps) if snap not in (NO_JSON, NOT_JUDGED)]
     resps = iter(ctx.driver.batch(reqs))
-    for hist, snaps in zip(hists, snaps_all):
-        model = [next(resps) for _ in snaps]
+    for hi, (hist, snaps) in enumerate(zip(hists, snaps_all)):
+        model = [next(resps) if snap not in (NO_JSON, NOT_JUDGED) else None for snap in snaps]
         tags = history_tags(hist)
-        results = history_direct(impl, hist, snaps)
+        aux = []
+        problems = []
+        results = history_direct(impl, hist, snaps, aux, problems)
+        for oracle, more, want, got in problems:
+            emit(hi, oracle, dict({'history': hist}, **more), want, got)
         if results and 'error' in results[-1][5]:
-            ctx.disagree('history', {'history': hist}, {'error': results.pop()[5]['error']}, 'every step succeeds', 'a step of the history failed on the implementation')
+            ctx.disagree(stream, {'history': hist}, {'error': results.pop()[5]['error']}, 'every step succeeds', 'a step of the history failed on the implementation')
         elif len(results) != len(snaps):
-            ctx.disagree('history', {'history': hist}, {'serialisations': len(results)}, {'serialisations': len(snaps)},
+            ctx.disagree(stream, {'history': hist}, {'serialisations': len(results)}, {'serialisations': len(snaps)},
                          'the history stopped early on the implementation')
         shared = any(r[5]['shared'] for r in results)
-        st.case(hist, nontrivial=shared or 'changed-after-ser' in tags or 'parse' in tags,
-                tags=tags + ['shared' if shared else 'tree'] + [f'expansion{min(max((depth_of(from_wire(s)) for s in snaps), default=0), 6)}'])
+        faulted = any(snap == NO_JSON for snap in snaps)
+        after_fault = faulted and any(snap not in (NO_JSON, NOT_JUDGED) for snap in snaps[snaps.index(NO_JSON):])
+        st.case(hist, nontrivial=shared or 'changed-after-ser' in tags or 'parse' in tags or after_fault,
+                tags=tags + ['shared' if shared else 'tree'] + (['ser-after-failed-call'] if after_fault else [])
+                + [f'expansion{min(max((depth_of(from_wire(s)) for s in snaps if s not in (NO_JSON, NOT_JUDGED)), default=0), 6)}'])
+        for ix, step, got, want in aux:
+            ctx.compare(stream, {'history': hist, 'step': ix, 'call': step}, got, want)
         for (n, ix, ind, fails, text, extra), resp in zip(results, model):
             case = {'history': hist, 'ser': n, 'step': ix, 'indent': ind, 'value': snaps[n]}
+            if 'not_judged' in extra:
+                continue
+            if 'expected_failure' in extra:
+                # no JSON form at this moment: the current code refuses (raises; null inside a script) - correspondence only
+                ctx.compare(stream, case, {'fails': [g if g == 'text' else 'fails' for g in extra['expected_failure']]},
+                            {'fails': ['fails'] * len(extra['expected_failure'])})
+                continue
             for oracle, want, got in fails:
-                ctx.witness(oracle, case, want, got)
+                emit(hi, oracle, case, want, got)
             impl_out = {'text': text} if text is not None else {'error': fails[0][2].split(':')[0]}
-            ctx.compare('history', case, impl_out, {'text': resp.get('mirror', resp)})
+            ctx.compare(stream, case, impl_out, {'text': resp.get('mirror', resp)})
             if text is not None and extra.get('jsonStringify') != text:
-                ctx.disagree('history', case, {'jsonStringify': str(extra.get('jsonStringify'))[:300]}, {'text': text[:300]},
+                ctx.disagree(stream, case, {'jsonStringify': str(extra.get('jsonStringify'))[:300]}, {'text': text[:300]},
                              'library jsonStringify(v, indent) differs from value_json(v, int(indent))')
             if extra.get('mutated'):
-                ctx.disagree('history', case, 'argument changed', 'argument unchanged', 'value_json changed its argument')
+                ctx.disagree(stream, case, 'argument changed', 'argument unchanged', 'value_json changed its argument')
             if resp.get('wf') is not True:
-                ctx.disagree('history', case, 'repr grammar / unique keys', resp.get('wf'), 'generated value is outside the hypotheses WF of the theorems')
+                ctx.disagree(stream, case, 'repr grammar / unique keys', resp.get('wf'), 'generated value is outside the hypotheses WF of the theorems')
             if text is not None:
                 key = json.dumps(canon(from_wire(snaps[n])), ensure_ascii=True)
                 prev = pool.setdefault(text, (key, {'value': snaps[n], 'indent': ind}))
                 if prev[0] != key:
-                    ctx.witness('injective', {'value': snaps[n], 'indent': ind, 'other': prev[1]}, 'different values, different texts', text[:300])
+                    emit(hi, 'injective', {'value': snaps[n], 'indent': ind, 'other': prev[1]}, 'different values, different texts', text[:300])
         # the same history as a script run by the interpreter
         src, res, sfails = history_script_failures(impl, hist, snaps)
         for n, fails in sfails:
             for oracle, want, got in fails:
-                ctx.witness(oracle, {'history': hist, 'mode': 'script', 'script': src, 'ser': n, 'value': snaps[n] if n < len(snaps) else None}, want, got)
-        ctx.compare('history', {'history': hist, 'mode': 'script', 'script': src},
-                    res if isinstance(res, (list, dict)) else repr(res)[:200], [m.get('mirror', m) for m in model])
+                emit(hi, oracle, {'history': hist, 'mode': 'script', 'script': src, 'ser': n, 'value': snaps[n] if n < len(snaps) else None}, want, got)
+        if isinstance(res, list) and len(res) == len(snaps):
+            res = [None if snap == NOT_JUDGED else t for t, snap in zip(res, snaps)]
+        ctx.compare(stream, {'history': hist, 'mode': 'script', 'script': src},
+                    res if isinstance(res, (list, dict)) else repr(res)[:200], [m.get('mirror', m) if m is not None else None for m in model])
 
 
 def stream_history(ctx, pool):
@@ -1211,11 +1787,278 @@ def stream_history(ctx, pool):
     st.exhaustive = False
 
 
+# ---------------------------------------------------------------------------------------------------------------------
+# fault-then-continue histories
+# ---------------------------------------------------------------------------------------------------------------------
+#
+# Every serialisation the streams above perform succeeds. The serialiser is also called on objects that have NO JSON form at that
+# moment - a container that (for a while) contains itself or one of its containers, a host-supplied NaN / infinity / over-long
+# int / unsortable object / over-deep nesting - and must refuse; it is reached through jsonStringify, stringNew, string
+# concatenation and the message of an argument-validation error. Whatever a failed call leaves behind (in a re-used encoder
+# object, a cache, a counter - anything that outlives the call) must not show afterwards: when the script has repaired the very
+# same objects in place they are ordinary values again and the property holds for them and for every container around them.
+
+
+def gen_fault_history(rng):
+    """A nest of containers b0 in b1 in ... (arrays / objects, the inner one possibly at several places); then 1-3 episodes:
+    1-2 faults put into containers of the nest (a host-supplied poison scalar, or one of the containers AROUND it = a cycle),
+    calls that must fail on the containers enclosing the fault (all routes; indented too) mixed with serialisations of parts that
+    are still fine, the in-place repair (arraySet / objectSet / objectDelete / arrayPop), then serialisations of every level of
+    the nest through every route, a failed jsonParse of a cut-off text, parsing back and re-serialising."""
+    scalars, vals, steps, kinds, binds = [], [], [], [], []
+    sers = []                                    # per "ser": kind of the binding if it is known to be in the domain, else None
+
+    def new_scalar(w):
+        scalars.append(w)
+        vals.append(from_wire(w))
+        return len(scalars) - 1
+
+    def clean_item():
+        ok = [i for i, w in enumerate(scalars) if not is_poison_wire(w)]
+        if ok and rng.random() < 0.25:
+            return ['s', rng.choice(ok)]
+        w = to_wire(gen_hist_scalar(rng))
+        if rng.random() < 0.1:
+            w = hostify(rng, w, 1.0)
+        return ['s', new_scalar(w)]
+
+    def key_index(key):
+        for i, w in enumerate(scalars):
+            if w == {'s': key}:
+                return i
+        return new_scalar({'s': key})
+
+    def fresh_key(have):
+        cands = [k for k in ['a', 'b', 'k', 'id', '', 'a.0,', 'z', 'm', '0', '1.0', 'items', 'é'] if k not in have]
+        if cands and rng.random() < 0.8:
+            return rng.choice(cands)
+        while True:
+            k = gen_string(rng)
+            if k not in have:
+                return k
+
+    def val(it):
+        return vals[it[1]] if it[0] == 's' else binds[it[1]]
+
+    def is_cont(x):
+        return isinstance(x, (list, dict)) and not any(x is v for v, w in zip(vals, scalars) if is_poison_wire(w))
+
+    # the nest
+    chain = []
+    for _ in range(rng.randint(1, 4)):
+        items = [clean_item() for _ in range(rng.choice([0, 1, 2, 2, 3]))]
+        if chain:
+            items.insert(rng.randrange(len(items) + 1), ['b', chain[-1]])
+            if rng.random() < 0.2:
+                items.insert(rng.randrange(len(items) + 1), ['b', rng.choice(chain)])
+        if rng.random() < 0.5:
+            steps.append(['arr', items])
+            binds.append([val(i) for i in items])
+            kinds.append('a')
+        else:
+            have = []
+            for _i in items:
+                have.append(fresh_key(have))
+            pairs = [[key_index(k), it] for k, it in zip(have, items)]
+            steps.append(['obj', pairs])
+            binds.append({k: val(it) for k, it in zip(have, items)})
+            kinds.append('o')
+        chain.append(len(binds) - 1)
+
+    # string concatenation turns value errors and recursion errors into null, but not the TypeError of an object with unsortable
+    # keys (that ends the script - not a matter of this property): no concatenation while such an object is in the nest
+    no_cat = [False]
+    # the indenting encoder needs about 0.1 s to fail on over-deep nesting (every token passes through 1000 generators)
+    no_indent = [False]
+
+    def ser(j, ind=None, route='json', known=False):
+        steps.append(['ser', ['b', j], ind] + ([route] if route != 'json' else []))
+        sers.append(kinds[j] if known and route == 'json' else None)
+
+    def any_route(j, known=False):
+        r = rng.random()
+        if r < 0.6 or (r < 0.75 and no_indent[0]):
+            ser(j, None, 'json', known)
+        elif r < 0.75:
+            ser(j, rng.choice(INDENTS[1:]), 'json', known)
+        elif r < 0.88 or no_cat[0]:
+            ser(j, None, 'str', known)
+        else:
+            ser(j, None, 'cat', known)
+
+    if rng.random() < 0.5:
+        any_route(chain[-1], known=True)
+
+    for _ in range(rng.choice([1, 1, 2, 3])):
+        faults = []
+        low = len(chain)
+        for _f in range(1 if rng.random() < 0.8 else 2):
+            ci = rng.randrange(len(chain))
+            low = min(low, ci)
+            c = chain[ci]
+            if rng.random() < 0.45:
+                it = ['b', chain[rng.randrange(ci, len(chain))]]          # itself or a container around it
+            else:
+                it = ['s', new_scalar({'x': rng.choice(POISONS)})]
+                no_cat[0] = no_cat[0] or scalars[-1]['x'] == 'badkeys'
+                no_indent[0] = no_indent[0] or scalars[-1]['x'] == 'deep'
+            if kinds[c] == 'a':
+                free = [i for i, x in enumerate(binds[c]) if not is_cont(x)]
+                if free and rng.random() < 0.6:
+                    idx = rng.choice(free)
+                    steps.append(['set', c, idx, it])
+                    binds[c][idx] = val(it)
+                else:
+                    idx = len(binds[c])
+                    steps.append(['push', c, it])
+                    binds[c].append(val(it))
+                faults.append((c, idx))
+            else:
+                free = sorted(k for k, x in binds[c].items() if not is_cont(x))
+                key = rng.choice(free) if free and rng.random() < 0.5 else fresh_key(list(binds[c]))
+                ki = key_index(key)
+                steps.append(['set', c, ki, it])
+                binds[c][key] = val(it)
+                faults.append((c, ki))
+
+        def trigger():
+            t = chain[rng.randrange(low, len(chain))] if rng.random() < 0.8 else rng.randrange(len(binds))
+            if rng.random() < 0.8:
+                any_route(t)
+            else:
+                steps.append(['bad', ['b', t], rng.choice(sorted(BAD_CALLS))])
+        for _t in range(rng.choice([1, 1, 2, 3])):
+            trigger()
+        rng.shuffle(faults)
+        for n, (c, slot) in enumerate(faults):
+            if n and rng.random() < 0.5:
+                trigger()
+            if kinds[c] == 'a':
+                if slot == len(binds[c]) - 1 and rng.random() < 0.5:
+                    steps.append(['pop', c])
+                    binds[c].pop()
+                elif slot < len(binds[c]):
+                    it = clean_item()
+                    steps.append(['set', c, slot, it])
+                    binds[c][slot] = val(it)
+            elif rng.random() < 0.5:
+                steps.append(['del', c, slot])
+                binds[c].pop(vals[slot], None)
+            else:
+                it = clean_item()
+                steps.append(['set', c, slot, it])
+                binds[c][vals[slot]] = val(it)
+        # afterwards: every level of the nest is an ordinary value again
+        no_cat[0] = no_indent[0] = False
+        levels = [j for j in chain if rng.random() < 0.8] or [chain[-1]]
+        rng.shuffle(levels)
+        for j in levels:
+            any_route(j, known=True)
+        if not any(k is not None for k in sers):
+            ser(chain[-1], None, 'json', True)
+        if rng.random() < 0.35:
+            ks = [k for k, kind in enumerate(sers) if kind is not None]
+            k = rng.choice(ks[-3:])
+            if rng.random() < 0.7:
+                steps.append(['badparse', k, rng.randint(1, 9), 10])
+            snaps = history_snapshots({'scalars': scalars, 'kinds': kinds, 'steps': steps})
+            if len(snaps) == len(sers) and snaps[k] != NO_JSON:
+                steps.append(['parse', k])
+                binds.append(parsed_form(from_wire(snaps[k])))
+                kinds.append(sers[k])
+                any_route(len(binds) - 1, known=True)
+    return {'scalars': scalars, 'kinds': kinds, 'steps': steps}
+
+
+_FRESH_SRC = r"""
+import importlib, json, sys
+sys.path.insert(0, sys.argv[1])
+import fw                                   # puts $VERIF_REPO/src first on sys.path
+from props import C14 as m
+impl = {n: importlib.import_module('bare_script.' + n) for n in ('parser', 'value', 'library', 'runtime')}
+out = []
+for h in json.load(sys.stdin):
+    try:
+        out.append(bool(m.history_fails(impl, h)))
+    except Exception as exc:
+        out.append(True)
+json.dump(out, sys.stdout)
+"""
+
+
+def fresh_history_fails(hists, timeout=300):
+    """The histories run IN ORDER by a fresh interpreter process (nothing left over from this process): -> [fails?] per history."""
+    res = subprocess.run([sys.executable, '-c', _FRESH_SRC, os.path.join(fw.VERIF, 'harness')], input=json.dumps(hists), capture_output=True,
+                         text=True, timeout=timeout, check=False)
+    if res.returncode != 0:
+        raise fw.Infra('fresh interpreter process failed: ' + res.stderr[-400:])
+    return json.loads(res.stdout)
+
+
+def stream_faults(ctx, pool):
+    st = ctx.stream('faults', 'fault-then-continue histories: a nest of arrays/objects built by library functions; a fault is put into it (host-supplied '
+                              'NaN / +-inf / int beyond the int->str limit / object with unsortable keys / nesting beyond the recursion limit, or one '
+                              'of the surrounding containers itself = a cycle); calls that must fail on the enclosing containers through every '
+                              'route to the serialiser (jsonStringify compact and indented, stringNew, string concatenation, the message of an '
+                              'argument-validation error), mixed with serialisations of the parts that are still fine; the in-place repair of '
+                              'the SAME objects (arraySet / objectSet / objectDelete / arrayPop); then every level of the nest serialised again '
+                              '(compact and indented; stringNew / concatenation in between, not judged), a failing jsonParse of a cut-off text, parse back and re-serialise; 1-3 such episodes per history; '
+                              'each history runs through the library functions and as a BareScript program, and the whole stream runs in ONE '
+                              'process, so state left by any failed call meets all later histories. Every serialisation of an object that '
+                              'denotes a JSON value is judged by all property oracles against the reference tree and compared with the model '
+                              'encoder; that the faulty object is refused is correspondence only (cycles and host poisons are outside the Lean '
+                              'model). A failure is confirmed in a FRESH interpreter: alone, else with the shortest run of preceding histories '
+                              'that reproduces it; non-trivial = an in-domain serialisation after a failed call')
+    rng = ctx.rng('faults')
+    hists = [gen_fault_history(rng) for _ in range(ctx.scale(1000, 30000))]
+    done = 0
+    found = []
+    for i in range(0, len(hists), 500):
+        chunk = hists[i:i + 500]
+        run_history_cases(ctx, st, chunk, pool, 'faults', emit=lambda hi, oracle, case, want, got, i=i: found.append((i + hi, oracle, case, want, got)))
+        done = i + len(chunk)
+        if found:
+            break
+    st.exhaustive = False
+    seen = []
+    for hi, oracle, case, want, got in found:
+        if hi not in seen:
+            seen.append(hi)
+    verdict = {}
+    for hi in seen[:3]:
+        if fresh_history_fails([hists[hi]])[0]:
+            verdict[hi] = None
+            continue
+        span = 1
+        verdict[hi] = False
+        while True:
+            lo = max(0, hi - span)
+            if fresh_history_fails(hists[lo:hi + 1])[-1]:
+                verdict[hi] = hists[lo:hi]
+                break
+            if lo == 0:
+                break
+            span *= 4
+    for hi, oracle, case, want, got in found:
+        if hi not in verdict:
+            continue
+        if verdict[hi] is None:
+            ctx.witness(oracle, case, want, got)
+        elif verdict[hi] is False:
+            ctx.disagree('faults', case, got, want, f'{oracle}: fails after the {hi} histories run before it in this process, not reproduced in a fresh interpreter')
+        else:
+            seq = dict(case)
+            seq['histories'] = verdict[hi] + [seq.pop('history', hists[hi])]
+            ctx.witness('after-earlier-calls:' + oracle, seq, want, got)
+    ctx.notes.append(f'faults: {done} histories in one process, {len(seen)} with a failing serialisation')
+
+
 def history_fails(impl, hist):
     """-> True if some serialisation of the history violates an oracle (direct or script mode)."""
     snaps = history_snapshots(hist)
-    results = history_direct(impl, hist, snaps)
-    if len(results) != len(snaps) or any(r[3] or 'error' in r[5] for r in results):
+    problems = []
+    results = history_direct(impl, hist, snaps, None, problems)
+    if problems or len(results) != len(snaps) or any(r[3] or 'error' in r[5] for r in results):
         return True
     return bool(history_script_failures(impl, hist, snaps)[2])
 
@@ -1226,6 +2069,11 @@ def streams(ctx):
     stream_history(ctx, pool)
     texts = stream_json(ctx, pool)
     stream_strings(ctx, pool)
+    stream_boundaries(ctx, pool)
+    stream_hostvalues(ctx, pool)
+    # before the streams that make jsonParse fail thousands of times (decode): a failure found here is then reproducible from the
+    # fault histories alone
+    stream_faults(ctx, pool)
     stream_cleanup(ctx, texts)
     stream_decode(ctx, texts)
     ctx.notes.append(f'injectivity pool: {len(pool)} distinct texts')
@@ -1242,13 +2090,13 @@ def search(ctx):
     impl = fw.impl()
     pool = {}
 
-    def try_(v, ind):
-        fails, text = oracle_failures(impl, v, ind)
-        case = {'value': to_wire(v), 'indent': ind}
+    def try_(v, ind, hostwire=None):
+        fails, text = oracle_failures(impl, v, ind, ref=from_wire(to_wire(v)))
+        case = {'value': to_wire(v) if hostwire is None else hostwire, 'indent': ind}
         for oracle, want, got in fails:
             ctx.witness(oracle, case, want, got)
         if text is not None:
-            key = json.dumps(canon(v), ensure_ascii=True)
+            key = json.dumps(canon(from_wire(to_wire(v))), ensure_ascii=True)
             prev = pool.setdefault(text, (key, case))
             if prev[0] != key:
                 ctx.witness('injective', {'value': case['value'], 'indent': ind, 'other': prev[1]}, 'different values, different texts', text[:300])
@@ -1260,7 +2108,11 @@ def search(ctx):
 
     def try_history(hist):
         snaps = history_snapshots(hist)
-        for n, ix, ind, fails, _, extra in history_direct(impl, hist, snaps):
+        problems = []
+        results = history_direct(impl, hist, snaps, None, problems)
+        for oracle, more, want, got in problems:
+            ctx.witness(oracle, dict({'history': hist}, **more), want, got)
+        for n, ix, ind, fails, _, extra in results:
             if 'error' in extra:
                 continue
             for oracle, want, got in fails:
@@ -1279,10 +2131,29 @@ def search(ctx):
     for _ in range(ctx.scale(3000, 30000)):
         if try_history(gen_history(hrng)):
             return
+    frng = ctx.rng('search-faults')
+    for _ in range(ctx.scale(3000, 30000)):
+        if try_history(gen_fault_history(frng)):
+            return
     for x in [None, True] + INTS + FLOATS + [-y for y in FLOATS]:
         for ind in (None, 1, 4):
             if try_([x, {'b': x, 'a': [x]}], ind):
                 return
+    for c in SPECIAL:
+        for frag in NUMLIKE:
+            strs = boundary_strings(c, frag)
+            for ind in (None, 2):
+                if try_([strs[0], 1.0, {strs[1]: strs[2], 'k': [strs[3], 2.0]}], ind) or try_(strs[0], ind):
+                    return
+    hvrng = ctx.rng('search-host')
+    for _ in range(ctx.scale(2000, 20000)):
+        hw = hostify(hvrng, to_wire(gen_value(hvrng, hvrng.randint(0, 4), top=True)), hvrng.choice([0.15, 0.4, 1.0]))
+        ind = hvrng.choice(INDENTS)
+        if try_(from_wire(hw), ind, hw):
+            return
+        for oracle, more, want, got in modes_failures(impl, hw, ind):
+            ctx.witness(oracle, dict({'value': hw, 'indent': ind}, **more), want, got)
+            return
     for s in small_strings(4):
         for v, _ in string_contexts(s):
             for ind in (None, 2):
@@ -1297,6 +2168,10 @@ def search(ctx):
 def replay(witness):
     impl = fw.impl()
     inp = witness['input']
+    if 'histories' in inp:
+        # a run of histories in one process: the last one fails only after the earlier ones (state that outlives a call)
+        res = [history_fails(impl, h) for h in inp['histories']]
+        return res[-1]
     if 'history' in inp:
         # the whole history is the input: the same steps, in the same order, in direct and in script mode
         return history_fails(impl, inp['history'])
@@ -1313,8 +2188,11 @@ def replay(witness):
         return second is first or not py_equal(second, want)
     v = from_wire(inp['value'])
     ind = inp.get('indent')
-    fails, text = oracle_failures(impl, v, ind, ref=from_wire(inp['value']))
+    indwire = inp.get('indent_object')
+    fails, text = oracle_failures(impl, v, ind, ref=from_wire(plain_wire(inp['value'])), lib_indent=None if indwire is None else from_wire(indwire))
     if fails:
+        return True
+    if 'mode' in inp and modes_failures(impl, inp['value'], ind, indwire):
         return True
     if 'other' in inp and text is not None:
         w = from_wire(inp['other']['value'])
@@ -1322,5 +2200,5 @@ def replay(witness):
             other_text = impl['value'].value_json(w, inp['other'].get('indent'))
         except Exception:  # pylint: disable=broad-except
             return True
-        return other_text == text and not py_equal(v, w)
+        return other_text == text and not py_equal(from_wire(plain_wire(inp['value'])), from_wire(plain_wire(inp['other']['value'])))
     return False
